@@ -28,6 +28,26 @@ func vLeafUtilReal(c *Config, t *vT, standalone bool) {
 	}
 }
 
+// the SAME non-test helper call site (VLeafNonTest) reached from this test file instead of the c11 one: where a snapshot lives
+// depends on the test file on the stack, not on which test file went through the helper first
+//
+//go:noinline
+func vLeafNonTestViaUtil(c *Config, name string, standalone bool) (string, string, []VFrame) {
+	return VLeafNonTest(c, name, standalone)
+}
+
+// a REAL MatchSnapshot call written in THIS test file (op match ... via=util): a Config shared by two test files stores each
+// file's snapshots under that file's name
+//
+//go:noinline
+func vUtilMatchSnapshot(c *Config, t *vT, vals ...any) {
+	if c == nil {
+		MatchSnapshot(t, vals...)
+	} else {
+		c.MatchSnapshot(t, vals...)
+	}
+}
+
 //go:noinline
 func vLeafUtil(c *Config, name string, standalone bool) (string, string, []VFrame) {
 	return VProbeExported(c, name, standalone)
